@@ -786,7 +786,8 @@ MANIFEST = {
             "message transfer for deflate (5 parameterisations), bzip2 and brotli over 3-message "
             "sequences x fragment sizes x doNotCompress x segmentations (RSV1 clear exactly on "
             "doNotCompress), 22 unsound/valid server responses x accept policies on the client, and "
-            "malformed offers on the server.",
+            "malformed offers on the server."
+            " Every reserved-bit pattern (1,2,3,5,6,7) on ping / text / continuation frames under every negotiated extension fails the connection.",
     "note": "Trusted: RFC 7692 rules in props/c12.py (judge_response_vs_offer), env transports, zlib. "
             "snappy is not installed. Window values {default,9,12,15} in quick.",
     "technique": "exhaustive enumeration of the negotiation parameter lattice on a real client/server "
